@@ -2180,4 +2180,61 @@ theorem bindOrder_nodup {log : List Ev} (ht : TraceOk log) :
       simp only [bindOrder]
       exact ⟨ihn, fun k hk => by obtain ⟨e', he', hk'⟩ := ihm k hk; exact ⟨e', List.mem_cons_of_mem _ he', hk'⟩⟩
 
+
+/-! ### helpers for the concrete histories of `Props/C16.lean` (counterexamples, non-vacuity) -/
+
+def logOf : Res St → List Ev
+  | .ok st => st.log
+  | _ => []
+
+def isOk : Res St → Bool
+  | .ok _ => true
+  | _ => false
+
+def isUb : Res St → Bool
+  | .ub _ => true
+  | _ => false
+
+theorem runs_of_isOk {cfg : Cfg} {own : Owner} {beh : Behaviour} {fuel : Nat} {ops : List Op}
+    (h : isOk (execOps cfg own beh fuel ops St.init) = true) :
+    ∃ st, execOps cfg own beh fuel ops St.init = .ok st ∧ st.log = logOf (execOps cfg own beh fuel ops St.init) := by
+  cases hc : execOps cfg own beh fuel ops St.init with
+  | ok st => exact ⟨st, rfl, rfl⟩
+  | ub w => rw [hc] at h; cases h
+  | outOfFuel => rw [hc] at h; cases h
+
+def plain : BFlags := ⟨false, false, false⟩
+def oneshot : BFlags := ⟨false, false, true⟩
+def wantsUnbind : BFlags := ⟨true, false, false⟩
+
+/-- handler 0 emits event 1 again at its first invocation -/
+def behReemit : Behaviour := fun h n => if h = 0 ∧ n = 0 then ⟨[.emit 1], 0⟩ else ⟨[], 0⟩
+/-- handler 0 unbinds its own binding at its first two invocations -/
+def behSelfTwice : Behaviour := fun h n => if h = 0 ∧ n ≤ 1 then ⟨[.unbindSelf], 0⟩ else ⟨[], 0⟩
+/-- handler 0 binds handler 1 `FIRST` at its first invocation -/
+def behBindFirst : Behaviour := fun h n => if h = 0 ∧ n = 0 then ⟨[.bind 1 true plain 1], 0⟩ else ⟨[], 0⟩
+def behNone : Behaviour := fun _ _ => ⟨[], 0⟩
+
+theorem noDestroy_behReemit : NoDestroy behReemit := by intro h n; unfold behReemit; split <;> simp
+theorem noDestroy_behSelfTwice : NoDestroy behSelfTwice := by intro h n; unfold behSelfTwice; split <;> simp
+theorem noDestroy_behBindFirst : NoDestroy behBindFirst := by intro h n; unfold behBindFirst; split <;> simp
+theorem noDestroy_behNone : NoDestroy behNone := by intro h n; simp [behNone]
+
+/-- handler 0, when first run, unbinds slot 1 and binds handler 3 at the back -/
+def behMutate : Behaviour := fun h n => if h = 0 ∧ n = 0 then ⟨[.unbind 1, .bind 1 false plain 3], 0⟩ else ⟨[], 0⟩
+
+theorem noDestroy_behMutate : NoDestroy behMutate := by intro h n; unfold behMutate; split <;> simp
+
+/-- three bindings of event 1: slots 0 and 1 at the back, slot 2 `FIRST` -/
+def stThree : St := bindEvent (bindEvent (bindEvent St.init 1 false plain 0) 1 false plain 1) 1 true plain 2
+
+theorem inv_stThree : Inv stThree := ((Inv.init.of_bind _ _ _ _).of_bind _ _ _ _).of_bind _ _ _ _
+
+theorem evLive_cons_occBegin {ev : Int} {log : List Ev} {k o : Nat} {ev' : Int} {wf : Bool} :
+    evLive ev (Ev.occBegin o ev' wf :: log) k ↔ evLive ev log k := by
+  unfold evLive
+  rw [liveAt_cons (by simp [Ev.affects])]
+  simp
+
+
 end Tickit.Bindings
